@@ -81,6 +81,25 @@ where
     if let Ok(p) = Pipeline::<A, _>::avx2() { check!("avx2/32", p.score(&pssm, &st32).unstripe().to_vec()); }
     check!("dispatch/32", Pipeline::<A, _>::dispatch().score(&pssm, &st32).unstripe().to_vec());
     for (nm, arm) in arms() { check!(nm, Pipeline::<A, Dispatch>::with_backend(arm.clone()).score(&pssm, &st32).unstripe().to_vec()); }
+    // REUSED score buffers: a buffer that still holds the scores of another (longer) sequence must end up with exactly the
+    // scores of this one - none when L < M - and an empty row range must leave it empty
+    {
+        let other = rand_syms::<A>(rng, 90 + m, false);
+        let mut so: StripedSequence<A, U32> = Pipeline::<A, _>::generic().stripe(&other[..]); so.configure(&pssm);
+        macro_rules! reuse { ($name:expr, $p:expr) => {{ let p = $p;
+            check!(concat!($name, "/reused buffer"), { let mut buf = StripedScores::<f32, U32>::empty(); p.score_into(&pssm, &so, &mut buf); p.score_into(&pssm, &st32, &mut buf); buf.unstripe().to_vec() });
+            *n += 1;
+            match catch_unwind(AssertUnwindSafe(|| { let mut buf = StripedScores::<f32, U32>::empty(); p.score_into(&pssm, &so, &mut buf); p.score_rows_into(&pssm, &st32, 1..1, &mut buf); (buf.matrix().rows(), buf.unstripe().len()) })) {
+                Ok((0, 0)) => {}
+                Ok((r, k)) => fails.push(fail("pli_score", format!("{}: an empty row range left {} rows / {} values of the previous sequence in the buffer", $name, r, k), case.clone())),
+                Err(_) => fails.push(fail("pli_score", format!("{}: empty row range: panic at {}", $name, panic_loc()), case.clone())),
+            }
+        }}; }
+        reuse!("generic/32", Pipeline::<A, _>::generic());
+        reuse!("sse2/32", Pipeline::<A, _>::sse2().unwrap());
+        if let Ok(p) = Pipeline::<A, _>::avx2() { reuse!("avx2/32", p); }
+        reuse!("dispatch/32", Pipeline::<A, _>::dispatch());
+    }
     // row sub-range through score_rows_into (dispatch): values of rows [a, b) must match
     let rows = st32.matrix().rows() - st32.wrap();
     if rows > 0 && l >= m {
